@@ -95,4 +95,33 @@ theorem canonOK_of_canonical (tE sE : Option Entry) (rest : List Entry)
   simp only [beq_iff_eq, List.map_append, List.flatten_append, List.append_assoc]
   cases tE <;> cases sE <;> simp [optBytes, optList]
 
+/-! ### printed numbers -/
+
+theorem all_digit_numChar (b : Bytes) (h : b.all isDigit = true) : b.all numChar = true := by
+  simp only [List.all_eq_true] at *
+  exact fun c hc => isDigit_numChar c (h c hc)
+
+theorem decShape_numTok (neg : Bool) (ip fr : Bytes) (hip : ip.all isDigit = true) (hfr : fr.all isDigit = true)
+    (hne : ip ≠ [] ∨ fr ≠ []) : numTok (decShape neg ip fr) = true := by
+  have a := all_digit_numChar ip hip
+  have b := all_digit_numChar fr hfr
+  unfold numTok decShape
+  simp only [Bool.and_eq_true, Bool.not_eq_true', List.all_append, List.isEmpty_iff]
+  constructor
+  · cases neg
+    · cases ip with
+      | cons c r => simp
+      | nil =>
+        cases fr with
+        | cons c r => simp
+        | nil => simp at hne
+    · simp
+  · refine ⟨by cases neg <;> decide, a, ?_⟩
+    cases fr with
+    | nil => simp
+    | cons c r =>
+      have hb : (c :: r).all numChar = true := b
+      have hd : numChar 0x2E = true := by decide
+      simp [hb, hd]
+
 end C13L
